@@ -144,6 +144,35 @@ func c07Run(b *core.B) {
 		}
 	}
 
+	// (1b) chains that go on after their else block: rejected, or the else block ends them -
+	// never a later branch in place of the else block, and no later condition evaluated
+	for _, tc := range []struct{ t, okOut string }{
+		{`<%= if (false) { %>A<% } else { %>B<% } else if (val("c2", true)) { %>C<% } %>`, "B"},
+		{`<%= if (false) { %>A<% } else { %>B<% } else { %>C<% } %>`, "B"},
+		{`<%= if (val("c1", false)) { %>A<% } else if (val("c2", false)) { %>X<% } else { %>B<% } else if (val("c3", true)) { %>C<% } else { %>D<% } %>`, "B"},
+		{`<%= if (true) { %>A<% } else { %>B<% } else if (val("c2", true)) { %>C<% } %>`, "A"},
+	} {
+		if !mine() || !b.Begin(tc.t) {
+			continue
+		}
+		env := &c07Env{}
+		res := render(b, tc.t, c07Ctx(env))
+		b.Count("chain-continued-after-else")
+		b.NonTrivialStr(tc.t)
+		if res.Pan != nil || res.Err != nil {
+			continue // rejected: fine
+		}
+		late := false
+		for _, id := range env.trace {
+			if id == "c3" || id == "c2" && !strings.Contains(tc.t, `"c1"`) {
+				late = true
+			}
+		}
+		if res.Out != tc.okOut || late {
+			b.Violate("branch-after-else-taken", fmt.Sprintf("accepted and rendered %q (conditions evaluated: %v); the else block ends the chain: want %q or a syntax error", res.Out, env.trace, tc.okOut))
+		}
+	}
+
 	// (2) chains
 	r := b.Rng(3)
 	reps := 10
